@@ -111,7 +111,9 @@ def find_tables(F, min_arms=20):
             t = Table(b, n, "lit" if nlit >= nvar else "var")
             for a in n["arms"]:
                 kk, vals = pat_keys(a["pat"])
-                if kk == "wild":
+                if kk == "wild" and a.get("guard") is not None:
+                    t.guarded = getattr(t, "guarded", []) + [a]
+                elif kk == "wild":
                     t.wild = a
                 else:
                     t.arms.append((vals, kk, arm_evidence(a["body"]), a))
@@ -206,6 +208,12 @@ def d1(rep, F):
         for m in sorted(missing):
             rep.add(Finding("D1", fn["path"], "missing:%s" % m,
                             "dispatch table in %s has no arm for supported type %s" % (fn["name"], m),
+                            fn["file"], t.node.get("ln")))
+        for ga in getattr(t, "guarded", []):
+            rep.add(Finding("D1", fn["path"], "guarded-catch-all",
+                            "the dispatch in %s has a catch-all arm with a guard (line %s): keys outside the table "
+                            "of supported types are dispatched by a computed condition, the other tables do not "
+                            "know them" % (fn["name"], ga.get("ln") or (ga.get("body") or {}).get("ln")),
                             fn["file"], t.node.get("ln")))
         if t.kind == "lit":
             r["instances"] += 1
